@@ -141,6 +141,7 @@ func (vc *VC) call(x *ssa.Call, st *State) {
 	if tv != nil {
 		vc.vals[x] = *tv
 	}
+	vc.callPost[x] = st.clone()
 }
 
 // doCall handles a call; v (may be nil for go/defer) is the result value.
@@ -409,7 +410,8 @@ func (vc *VC) modRegions(fc *FuncContract, env *Env) (regions []modRegion, all b
 		}
 		switch x := e.(type) {
 		case *EIdent:
-			if _, ok := vc.prog.cs.Ghosts[x.Name]; ok {
+			if g, ok := vc.prog.cs.Ghosts[x.Name]; ok {
+				vc.heapKeySort("#ghost."+x.Name, vc.parseType(g.Type, env.pkg))
 				regions = append(regions, modRegion{"#ghost." + x.Name, func(l string) string { return "true" }})
 				continue
 			}
@@ -519,6 +521,9 @@ func (vc *VC) applyModifies(fc *FuncContract, env *Env, st *State) {
 	for _, r := range regions {
 		byKey[r.key] = append(byKey[r.key], r)
 	}
+	oldId := st.nextId
+	newId := vc.freshConst("nextId", "Int")
+	vc.addFact("assume", sx("<=", oldId, newId))
 	for _, k := range sortedKeys(byKey) {
 		elem := vc.heapElem[k]
 		if elem == nil {
@@ -534,10 +539,9 @@ func (vc *VC) applyModifies(fc *FuncContract, env *Env, st *State) {
 		// callee may also write freshly allocated memory: irrelevant to the caller's known locations
 		vc.assume(vc.guard(), fmt.Sprintf("(forall ((l!m Loc)) (! (=> (not %s) (= (select %s l!m) (select %s l!m))) :pattern ((select %s l!m))))", or(ps...), nw, old, nw))
 		st.heap[k] = nw
+		vc.closureFact(nw, k, newId, 1)
 	}
-	oldId := st.nextId
-	st.nextId = vc.freshConst("nextId", "Int")
-	vc.assume(vc.guard(), sx("<=", oldId, st.nextId))
+	st.nextId = newId
 }
 
 // frameCheck: at a return, every heap key changed since entry must be covered
